@@ -210,6 +210,16 @@ class Builder(object):
     def t_Subscript(self, node):
         base = simp(self.t(node.value))
         idx = self.t_index(node.slice)
+        # a subscript of a conditional value is the conditional of the subscripts
+        if isinstance(base, tuple) and base and base[0] == 'ifexp' and not isinstance(node.slice, ast.Slice):
+            def pick(x):
+                if isinstance(x, tuple) and x and x[0] == 'ifexp':
+                    return ('ifexp', x[1], pick(x[2]), pick(x[3]))
+                k_ = poly_const(idx) if isinstance(idx, tuple) else None
+                if isinstance(x, tuple) and x and x[0] in ('list', 'tuple') and k_ is not None and k_.denominator == 1 and -len(x) + 1 <= int(k_) < len(x) - 1:
+                    return x[1:][int(k_)]
+                return ('sub', x, idx)
+            return pick(base)
         # element of a list/tuple display whose value is known (one-element "cells" such as maxfun = [evaluations])
         if isinstance(base, tuple) and base and base[0] in ('list', 'tuple'):
             k = poly_const(idx) if isinstance(idx, tuple) else None
